@@ -13,7 +13,7 @@ ENTRY = {
                       {"file": "simulated_data_sources.go", "old": "time.NewTicker(", "new": "vSimTicker(", "all": True},
                       {"file": "lancero_source.go", "old": "ticker := time.NewTicker(ls.readPeriod)", "new": "ticker := vNewTicker(ls.readPeriod)"},
                       {"file": "abaco.go", "old": "ticker := time.NewTicker(as.readPeriod)", "new": "ticker := vNewTicker(as.readPeriod)"}],
-        "quick": T(16, 90), "thorough": T(16, 900),
+        "quick": T(16, 180), "thorough": T(16, 900),
         "rule": "one execution = one complete interleaving (synchronisation-operation granularity, preemption-bounded, all select alternatives) of the driver threads "
                 "(Start, Stop callers) with the real CoreLoop goroutine and the producer goroutine of a scripted source; oracle: no deadlock, all calls return, final state "
                 "Inactive, writing stopped, no goroutine of the run left, and the same object restarts and delivers; non-trivial = at least one preemption",
